@@ -16,6 +16,15 @@ gen/UnitsGen.vos gen/UnitsGen.vok gen/UnitsGen.required_vos: gen/UnitsGen.v Base
 UnitsGenOK.vo UnitsGenOK.glob UnitsGenOK.v.beautified UnitsGenOK.required_vo: UnitsGenOK.v Base.vo Units.vo UnitsThm.vo GenBase.vo gen/UnitsGen.vo
 UnitsGenOK.vio: UnitsGenOK.v Base.vio Units.vio UnitsThm.vio GenBase.vio gen/UnitsGen.vio
 UnitsGenOK.vos UnitsGenOK.vok UnitsGenOK.required_vos: UnitsGenOK.v Base.vos Units.vos UnitsThm.vos GenBase.vos gen/UnitsGen.vos
+gen/UnitsSym.vo gen/UnitsSym.glob gen/UnitsSym.v.beautified gen/UnitsSym.required_vo: gen/UnitsSym.v Base.vo Units.vo GenBase.vo
+gen/UnitsSym.vio: gen/UnitsSym.v Base.vio Units.vio GenBase.vio
+gen/UnitsSym.vos gen/UnitsSym.vok gen/UnitsSym.required_vos: gen/UnitsSym.v Base.vos Units.vos GenBase.vos
+UnitsSymOK.vo UnitsSymOK.glob UnitsSymOK.v.beautified UnitsSymOK.required_vo: UnitsSymOK.v Base.vo Units.vo UnitsThm.vo GenBase.vo gen/UnitsSym.vo
+UnitsSymOK.vio: UnitsSymOK.v Base.vio Units.vio UnitsThm.vio GenBase.vio gen/UnitsSym.vio
+UnitsSymOK.vos UnitsSymOK.vok UnitsSymOK.required_vos: UnitsSymOK.v Base.vos Units.vos UnitsThm.vos GenBase.vos gen/UnitsSym.vos
+gen/UnitsTie.vo gen/UnitsTie.glob gen/UnitsTie.v.beautified gen/UnitsTie.required_vo: gen/UnitsTie.v Base.vo Units.vo UnitsThm.vo GenBase.vo gen/UnitsGen.vo UnitsGenOK.vo gen/UnitsSym.vo UnitsSymOK.vo
+gen/UnitsTie.vio: gen/UnitsTie.v Base.vio Units.vio UnitsThm.vio GenBase.vio gen/UnitsGen.vio UnitsGenOK.vio gen/UnitsSym.vio UnitsSymOK.vio
+gen/UnitsTie.vos gen/UnitsTie.vok gen/UnitsTie.required_vos: gen/UnitsTie.v Base.vos Units.vos UnitsThm.vos GenBase.vos gen/UnitsGen.vos UnitsGenOK.vos gen/UnitsSym.vos UnitsSymOK.vos
 Contents.vo Contents.glob Contents.v.beautified Contents.required_vo: Contents.v Base.vo Units.vo
 Contents.vio: Contents.v Base.vio Units.vio
 Contents.vos Contents.vok Contents.required_vos: Contents.v Base.vos Units.vos
@@ -79,6 +88,15 @@ gen/LifecycleGen.vos gen/LifecycleGen.vok gen/LifecycleGen.required_vos: gen/Lif
 LifecycleGenOK.vo LifecycleGenOK.glob LifecycleGenOK.v.beautified LifecycleGenOK.required_vo: LifecycleGenOK.v Base.vo GenBase.vo Lifecycle.vo LifecycleThm.vo gen/LifecycleGen.vo
 LifecycleGenOK.vio: LifecycleGenOK.v Base.vio GenBase.vio Lifecycle.vio LifecycleThm.vio gen/LifecycleGen.vio
 LifecycleGenOK.vos LifecycleGenOK.vok LifecycleGenOK.required_vos: LifecycleGenOK.v Base.vos GenBase.vos Lifecycle.vos LifecycleThm.vos gen/LifecycleGen.vos
+gen/LifecycleSym.vo gen/LifecycleSym.glob gen/LifecycleSym.v.beautified gen/LifecycleSym.required_vo: gen/LifecycleSym.v Base.vo GenBase.vo
+gen/LifecycleSym.vio: gen/LifecycleSym.v Base.vio GenBase.vio
+gen/LifecycleSym.vos gen/LifecycleSym.vok gen/LifecycleSym.required_vos: gen/LifecycleSym.v Base.vos GenBase.vos
+LifecycleSymOK.vo LifecycleSymOK.glob LifecycleSymOK.v.beautified LifecycleSymOK.required_vo: LifecycleSymOK.v Base.vo GenBase.vo Lifecycle.vo LifecycleThm.vo gen/LifecycleSym.vo
+LifecycleSymOK.vio: LifecycleSymOK.v Base.vio GenBase.vio Lifecycle.vio LifecycleThm.vio gen/LifecycleSym.vio
+LifecycleSymOK.vos LifecycleSymOK.vok LifecycleSymOK.required_vos: LifecycleSymOK.v Base.vos GenBase.vos Lifecycle.vos LifecycleThm.vos gen/LifecycleSym.vos
+gen/LifecycleTie.vo gen/LifecycleTie.glob gen/LifecycleTie.v.beautified gen/LifecycleTie.required_vo: gen/LifecycleTie.v Base.vo GenBase.vo Lifecycle.vo LifecycleThm.vo gen/LifecycleGen.vo LifecycleGenOK.vo gen/LifecycleSym.vo LifecycleSymOK.vo
+gen/LifecycleTie.vio: gen/LifecycleTie.v Base.vio GenBase.vio Lifecycle.vio LifecycleThm.vio gen/LifecycleGen.vio LifecycleGenOK.vio gen/LifecycleSym.vio LifecycleSymOK.vio
+gen/LifecycleTie.vos gen/LifecycleTie.vok gen/LifecycleTie.required_vos: gen/LifecycleTie.v Base.vos GenBase.vos Lifecycle.vos LifecycleThm.vos gen/LifecycleGen.vos LifecycleGenOK.vos gen/LifecycleSym.vos LifecycleSymOK.vos
 Recipe.vo Recipe.glob Recipe.v.beautified Recipe.required_vo: Recipe.v Base.vo Units.vo Contents.vo Container.vo Dilute.vo Solve.vo Plate.vo Prog.vo
 Recipe.vio: Recipe.v Base.vio Units.vio Contents.vio Container.vio Dilute.vio Solve.vio Plate.vio Prog.vio
 Recipe.vos Recipe.vok Recipe.required_vos: Recipe.v Base.vos Units.vos Contents.vos Container.vos Dilute.vos Solve.vos Plate.vos Prog.vos
@@ -133,9 +151,9 @@ Props/C18.vos Props/C18.vok Props/C18.required_vos: Props/C18.v Base.vos Units.v
 Props/C19.vo Props/C19.glob Props/C19.v.beautified Props/C19.required_vo: Props/C19.v Base.vo Units.vo UnitsThm.vo Contents.vo Container.vo Instr.vo ContainerThm.vo Dilute.vo Instr2.vo
 Props/C19.vio: Props/C19.v Base.vio Units.vio UnitsThm.vio Contents.vio Container.vio Instr.vio ContainerThm.vio Dilute.vio Instr2.vio
 Props/C19.vos Props/C19.vok Props/C19.required_vos: Props/C19.v Base.vos Units.vos UnitsThm.vos Contents.vos Container.vos Instr.vos ContainerThm.vos Dilute.vos Instr2.vos
-Props/C06.vo Props/C06.glob Props/C06.v.beautified Props/C06.required_vo: Props/C06.v Base.vo Units.vo UnitsThm.vo GenBase.vo gen/UnitsGen.vo UnitsGenOK.vo
-Props/C06.vio: Props/C06.v Base.vio Units.vio UnitsThm.vio GenBase.vio gen/UnitsGen.vio UnitsGenOK.vio
-Props/C06.vos Props/C06.vok Props/C06.required_vos: Props/C06.v Base.vos Units.vos UnitsThm.vos GenBase.vos gen/UnitsGen.vos UnitsGenOK.vos
+Props/C06.vo Props/C06.glob Props/C06.v.beautified Props/C06.required_vo: Props/C06.v Base.vo Units.vo UnitsThm.vo GenBase.vo gen/UnitsTie.vo
+Props/C06.vio: Props/C06.v Base.vio Units.vio UnitsThm.vio GenBase.vio gen/UnitsTie.vio
+Props/C06.vos Props/C06.vok Props/C06.required_vos: Props/C06.v Base.vos Units.vos UnitsThm.vos GenBase.vos gen/UnitsTie.vos
 Props/C01.vo Props/C01.glob Props/C01.v.beautified Props/C01.required_vo: Props/C01.v Base.vo Units.vo Contents.vo Container.vo ContainerThm.vo Plate.vo PlateThm.vo
 Props/C01.vio: Props/C01.v Base.vio Units.vio Contents.vio Container.vio ContainerThm.vio Plate.vio PlateThm.vio
 Props/C01.vos Props/C01.vok Props/C01.required_vos: Props/C01.v Base.vos Units.vos Contents.vos Container.vos ContainerThm.vos Plate.vos PlateThm.vos
@@ -160,12 +178,12 @@ Props/C11.vos Props/C11.vok Props/C11.required_vos: Props/C11.v Base.vos Units.v
 Props/C13.vo Props/C13.glob Props/C13.v.beautified Props/C13.required_vo: Props/C13.v Base.vo Plate.vo Slicer.vo SlicerThm.vo
 Props/C13.vio: Props/C13.v Base.vio Plate.vio Slicer.vio SlicerThm.vio
 Props/C13.vos Props/C13.vok Props/C13.required_vos: Props/C13.v Base.vos Plate.vos Slicer.vos SlicerThm.vos
-Props/C14.vo Props/C14.glob Props/C14.v.beautified Props/C14.required_vo: Props/C14.v Base.vo Units.vo UnitsThm.vo GenBase.vo gen/UnitsGen.vo UnitsGenOK.vo Parse.vo ParseThm.vo
-Props/C14.vio: Props/C14.v Base.vio Units.vio UnitsThm.vio GenBase.vio gen/UnitsGen.vio UnitsGenOK.vio Parse.vio ParseThm.vio
-Props/C14.vos Props/C14.vok Props/C14.required_vos: Props/C14.v Base.vos Units.vos UnitsThm.vos GenBase.vos gen/UnitsGen.vos UnitsGenOK.vos Parse.vos ParseThm.vos
-Props/C16.vo Props/C16.glob Props/C16.v.beautified Props/C16.required_vo: Props/C16.v Base.vo GenBase.vo Lifecycle.vo LifecycleThm.vo gen/LifecycleGen.vo LifecycleGenOK.vo
-Props/C16.vio: Props/C16.v Base.vio GenBase.vio Lifecycle.vio LifecycleThm.vio gen/LifecycleGen.vio LifecycleGenOK.vio
-Props/C16.vos Props/C16.vok Props/C16.required_vos: Props/C16.v Base.vos GenBase.vos Lifecycle.vos LifecycleThm.vos gen/LifecycleGen.vos LifecycleGenOK.vos
+Props/C14.vo Props/C14.glob Props/C14.v.beautified Props/C14.required_vo: Props/C14.v Base.vo Units.vo UnitsThm.vo GenBase.vo gen/UnitsTie.vo Parse.vo ParseThm.vo
+Props/C14.vio: Props/C14.v Base.vio Units.vio UnitsThm.vio GenBase.vio gen/UnitsTie.vio Parse.vio ParseThm.vio
+Props/C14.vos Props/C14.vok Props/C14.required_vos: Props/C14.v Base.vos Units.vos UnitsThm.vos GenBase.vos gen/UnitsTie.vos Parse.vos ParseThm.vos
+Props/C16.vo Props/C16.glob Props/C16.v.beautified Props/C16.required_vo: Props/C16.v Base.vo GenBase.vo Lifecycle.vo LifecycleThm.vo gen/LifecycleTie.vo
+Props/C16.vio: Props/C16.v Base.vio GenBase.vio Lifecycle.vio LifecycleThm.vio gen/LifecycleTie.vio
+Props/C16.vos Props/C16.vok Props/C16.required_vos: Props/C16.v Base.vos GenBase.vos Lifecycle.vos LifecycleThm.vos gen/LifecycleTie.vos
 Props/C08.vo Props/C08.glob Props/C08.v.beautified Props/C08.required_vo: Props/C08.v Base.vo Units.vo Contents.vo Container.vo Dilute.vo Solve.vo Plate.vo Prog.vo Recipe.vo RecipeThm.vo
 Props/C08.vio: Props/C08.v Base.vio Units.vio Contents.vio Container.vio Dilute.vio Solve.vio Plate.vio Prog.vio Recipe.vio RecipeThm.vio
 Props/C08.vos Props/C08.vok Props/C08.required_vos: Props/C08.v Base.vos Units.vos Contents.vos Container.vos Dilute.vos Solve.vos Plate.vos Prog.vos Recipe.vos RecipeThm.vos
